@@ -2,6 +2,8 @@ import MCHap.Proofs.Pedigree
 import MCHap.Proofs.PedigreeEnum
 import MCHap.Proofs.PedigreeValid
 import MCHap.Proofs.PedigreeEnumSmall
+import MCHap.Proofs.PedigreeComplete
+import MCHap.Proofs.PedigreeBridge
 
 /-!
 # C17 — the pedigree inheritance model is a proper probability distribution; zero iff invalid
@@ -360,6 +362,117 @@ theorem duo_positive_iff_valid (T : Trio) (n : ℕ) (hd : T.d.length = n) (hdp :
       exact mul_nonneg m1 (unknownPmf_pos T.fs hf b').le
     have hle := List.single_le_sum hnn _ (List.mem_map.mpr ⟨(a, b), hmem, rfl⟩)
     exact lt_of_lt_of_le hterm hle
+
+/-! ### general completeness of the literal enumerator -/
+
+/-- **each successful `increment_dosage` step goes to the lexicographic predecessor**: no vector
+    under the constraint with the same total lies strictly between the result and the argument -/
+theorem increment_is_predecessor (g c g' a : List ℕ) (tau : ℕ) (hg : Adm c tau g) (ha : Adm c tau a)
+    (h : incrementDosage g c = some g') (hlt : a < g) : a ≤ g' :=
+  increment_is_pred g c g' a tau hg ha h hlt
+
+/-- when `increment_dosage` raises ("Final dosage") the vector is the lexicographic minimum -/
+theorem stuck_is_minimum (g c a : List ℕ) (tau : ℕ) (hg : Adm c tau g) (ha : Adm c tau a)
+    (h : incrementDosage g c = none) : ¬ a < g :=
+  stuck_is_min g c a tau hg ha h
+
+/-- **the literal enumerator is complete**: for every constraint vector and every gamete size that
+    fits, the loop `set_initial_dosage; while True: …; increment_dosage` visits exactly the vectors
+    under the constraint with total `τ`, each exactly once (the fuel of the model never runs out) -/
+theorem enumerator_complete (tau : ℕ) (c : List ℕ) (h : tau ≤ c.sum) :
+    (enumDosage tau c).Nodup ∧ ∀ a, a ∈ enumDosage tau c ↔ (List.Forall₂ (· ≤ ·) a c ∧ a.sum = tau) :=
+  enumDosage_complete tau c h
+
+/-- hence it is a permutation of the reference enumeration `enumSpec` -/
+theorem enumerator_perm_spec (tau : ℕ) (c : List ℕ) (h : tau ≤ c.sum) :
+    (enumDosage tau c).Perm (enumSpec tau c) := enumDosage_perm_spec tau c h
+
+/-- `trio_valid` as the code runs it (literal enumerator) is the validity test of the specification -/
+theorem trioValid_eq_spec (d dp dq : List ℕ) (tp tq : ℕ) (lp lq : ℚ) :
+    trioValidWith enumDosage d dp dq tp tq lp lq = trioValidSpec d dp dq tp tq lp lq := by
+  unfold trioValidSpec trioValidWith
+  simp only
+  split
+  · rfl
+  · rename_i h
+    rw [not_or, not_lt, not_lt] at h
+    exact (enumDosage_perm_spec tp _ h.1).any_eq
+
+/-- **zero error: positive probability ⇔ `trio_valid`** (the model of the code's own test) -/
+theorem positive_iff_trioValid (T : Trio) (n : ℕ) (hd : T.d.length = n) (hdp : T.dp.length = n)
+    (hdq : T.dq.length = n) (hsum : T.d.sum = T.tp + T.tq) (hep : T.ep = 0) (heq : T.eq = 0)
+    (hpp : T.pp ≠ 0) (hpq : T.pq ≠ 0)
+    (hp : T.dp.sum = T.pp ∧ T.tp ≤ T.pp ∧ 0 ≤ T.lp ∧ T.lp < 1 ∧ (T.lp ≠ 0 → T.tp = 2))
+    (hq : T.dq.sum = T.pq ∧ T.tq ≤ T.pq ∧ 0 ≤ T.lq ∧ T.lq < 1 ∧ (T.lq ≠ 0 → T.tq = 2)) :
+    0 < trioPmf T ↔ trioValid T.d T.dp T.dq T.tp T.tq T.lp T.lq = some true := by
+  rw [positive_iff_valid T n hd hdp hdq hsum hep heq hpp hpq hp hq, ← trioValid_eq_spec]
+  unfold trioValid
+  have h1 : ¬ ((T.lp > 0 ∧ T.tp ≠ 2) ∨ (T.lq > 0 ∧ T.tq ≠ 2)) := by
+    rintro (⟨a, b⟩ | ⟨a, b⟩)
+    · exact b (hp.2.2.2.2 (ne_of_gt a))
+    · exact b (hq.2.2.2.2 (ne_of_gt a))
+  rw [if_neg h1]
+  simp
+
+/-! ### the code's evaluation equals the specification -/
+
+/-- `Σ_{a ≤ d, |a| = τ_p} U(a) · U(d − a) = U(d)`: the closed-form "both parents invalid" term of
+    `trio_log_pmf` is the sum over all pairs of gametes of unknown origin -/
+theorem multinomial_convolution (fs : List ℚ) (d : List ℕ) (tp tq : ℕ) (hs : d.sum = tp + tq)
+    (hl : d.length ≤ fs.length) :
+    (((compositions d.length tp).filter (fun a => vle a d)).map
+        (fun a => unknownPmf fs a * unknownPmf fs (vsub d a))).sum = unknownPmf fs d :=
+  multinomial_convolution_aux fs d tp tq hs hl
+
+/-- `exp(gamete_log_pmf)` as the code computes it (literal `double_reduction_permutations`) is the
+    specification's gamete pmf -/
+theorem gameteCode_eq_spec (dp a : List ℕ) (pp tau : ℕ) (lam : ℚ) (hl : a.length = dp.length)
+    (hs : a.sum = tau) (h0 : 0 ≤ lam) (hlam : lam ≠ 0 → tau = 2) :
+    gametePmf a tau dp pp lam = gameteSpec dp pp tau lam a :=
+  gametePmf_eq_spec dp a pp tau lam hl hs h0 hlam
+
+/-- **support lemma**: a gamete that fits into the progeny but not under the constraint vector
+    has probability zero, so restricting the pair sum to the constraint loses nothing -/
+theorem support_under_constraint (d dp a : List ℕ) (pp tau : ℕ) (lam : ℚ)
+    (hd : d.length = dp.length) (ha : a.length = dp.length)
+    (had : ∀ i, a.getD i 0 ≤ d.getD i 0) (h0 : 0 ≤ lam)
+    (hv : ¬ vle a (constraintOf d dp lam) = true) : gameteSpec dp pp tau lam a = 0 :=
+  gameteSpec_zero_outside d dp a pp tau lam hd ha had h0 hv
+
+/-- **the model of `trio_log_pmf` — constraint vectors, the four `valid_p / valid_q` branches, the
+    literal `set_initial_dosage` / `increment_dosage` enumeration, the closed-form last term — equals
+    the specification `trioPmf`** under the well-formedness the code relies on (`TrioWF`) -/
+theorem trioCode_eq_spec (T : Trio) (h : TrioWF T) : trioPmfCode T = trioPmf T :=
+  trioPmfCode_eq_spec T h
+
+/-- hence **the code model sums to one over all unordered progeny genotypes** -/
+theorem trioCode_sum_one (T : Trio) (n : ℕ) (hdp : T.dp.length = n) (hdq : T.dq.length = n)
+    (hfn : T.fs.length = n) (hfs : T.fs.sum = 1)
+    (hep : T.pp = 0 → T.ep = 1) (heq : T.pq = 0 → T.eq = 1) (hep1 : T.ep ≤ 1) (heq1 : T.eq ≤ 1)
+    (hlp0 : 0 ≤ T.lp) (hlq0 : 0 ≤ T.lq)
+    (hp : T.tp ≠ 0 → T.pp ≠ 0 → T.dp.sum = T.pp ∧ T.tp ≤ T.pp)
+    (hq : T.tq ≠ 0 → T.pq ≠ 0 → T.dq.sum = T.pq ∧ T.tq ≤ T.pq)
+    (hlp : T.lp ≠ 0 → T.tp = 2) (hlq : T.lq ≠ 0 → T.tq = 2) :
+    ((compositions n (T.tp + T.tq)).map (fun d => trioPmfCode { T with d := d })).sum = 1 := by
+  have e : ∀ d ∈ compositions n (T.tp + T.tq), trioPmfCode { T with d := d } = trioPmf { T with d := d } := by
+    intro d hd
+    obtain ⟨h1, h2⟩ := (MCHap.mem_compositions_iff _ _ _).mp hd
+    exact trioCode_eq_spec _ ⟨by simp only; omega, by simp only; omega, by simp only; omega, h2, hep, heq,
+      hep1, heq1, hlp0, hlp, hlq0, hlq⟩
+  rw [List.map_congr_left e]
+  exact trio_sum_one T n hdp hdq hfn hfs
+    (fun a b => ⟨(hp a b).1, (hp a b).2, hlp⟩) (fun a b => ⟨(hq a b).1, (hq a b).2, hlq⟩)
+
+/-- **zero error, on the code model itself**: `exp(trio_log_pmf) > 0 ⇔ trio_valid` -/
+theorem trioCode_positive_iff_trioValid (T : Trio) (n : ℕ) (hd : T.d.length = n) (hdp : T.dp.length = n)
+    (hdq : T.dq.length = n) (hfs : n ≤ T.fs.length) (hsum : T.d.sum = T.tp + T.tq)
+    (hep : T.ep = 0) (heq : T.eq = 0) (hpp : T.pp ≠ 0) (hpq : T.pq ≠ 0)
+    (hp : T.dp.sum = T.pp ∧ T.tp ≤ T.pp ∧ 0 ≤ T.lp ∧ T.lp < 1 ∧ (T.lp ≠ 0 → T.tp = 2))
+    (hq : T.dq.sum = T.pq ∧ T.tq ≤ T.pq ∧ 0 ≤ T.lq ∧ T.lq < 1 ∧ (T.lq ≠ 0 → T.tq = 2)) :
+    0 < trioPmfCode T ↔ trioValid T.d T.dp T.dq T.tp T.tq T.lp T.lq = some true := by
+  rw [trioCode_eq_spec T ⟨by omega, by omega, by omega, hsum, fun h => absurd h hpp, fun h => absurd h hpq,
+    by rw [hep]; norm_num, by rw [heq]; norm_num, hp.2.2.1, hp.2.2.2.2, hq.2.2.1, hq.2.2.2.2⟩]
+  exact positive_iff_trioValid T n hd hdp hdq hsum hep heq hpp hpq hp hq
 
 /-! ### the literal enumerator is complete — machine-checked on a bounded family (a test, not a proof
     of the general statement; the general statement enters `trioCode_eq_spec` as a hypothesis) -/
